@@ -487,6 +487,19 @@ def drive_cases(
             rec.skip.add(f.bucket)
 
 
+def _fresh_thread_pools() -> None:
+    """After fork the worker threads of the parent's executors do not exist, but the executor objects
+    still believe they do: work submitted to them would wait for ever.  baize keeps one class-level
+    pool for WSGI event streams; give the child its own."""
+    mod = sys.modules.get("baize.wsgi.responses")
+    if mod is None:
+        return
+    cls = getattr(mod, "SendEventResponse", None)
+    pool = getattr(cls, "thread_pool", None)
+    if pool is not None:
+        cls.thread_pool = type(pool)(max_workers=getattr(pool, "_max_workers", 10), thread_name_prefix="SendEvent_")
+
+
 def _shard_entry(args: Tuple[Any, ...]) -> Dict[str, Any]:
     fn, pid, tier, seed, level, k, n, extra = args
     try:
@@ -496,6 +509,7 @@ def _shard_entry(args: Tuple[Any, ...]) -> Dict[str, Any]:
         from harness import gateways
 
         gateways._LOOP = None  # the parent's loop has executor threads that do not exist after fork
+        _fresh_thread_pools()
         for hook in AFTER_FORK:
             hook()
         rec = Recorder(pid, tier, seed, level)
